@@ -63,13 +63,30 @@ pub fn parse_rootdefinition_enum(
                         .register_type(ir::TypeLayer::Scalar(ir::ScalarType::Int32)),
                 ),
                 Some(last_value) => {
+                    // The next value must be representable in the type of the previous value
                     let next_value = match last_value.0 {
-                        ir::Constant::IntLiteral(v) => ir::Constant::IntLiteral(v + 1),
-                        ir::Constant::Int32(v) => ir::Constant::Int32(v + 1),
-                        ir::Constant::UInt32(v) => ir::Constant::UInt32(v + 1),
+                        ir::Constant::IntLiteral(v) => v.checked_add(1).map(ir::Constant::IntLiteral),
+                        ir::Constant::Int32(v) => v.checked_add(1).map(ir::Constant::Int32),
+                        ir::Constant::UInt32(v) => v.checked_add(1).map(ir::Constant::UInt32),
+                        // A bool value continues as an integer
+                        ir::Constant::Bool(v) => Some(ir::Constant::Int32(i32::from(v) + 1)),
                         _ => panic!("Unexpected constant type in enum value"),
                     };
-                    (next_value, last_value.1)
+                    let next_value = match next_value {
+                        Some(next_value) => next_value,
+                        None => {
+                            return Err(TyperError::EnumValueOverflow(member.name.location));
+                        }
+                    };
+                    let next_ty = if let ir::Constant::Bool(_) = last_value.0 {
+                        context
+                            .module
+                            .type_registry
+                            .register_type(ir::TypeLayer::Scalar(ir::ScalarType::Int32))
+                    } else {
+                        last_value.1
+                    };
+                    (next_value, next_ty)
                 }
             }
         };
